@@ -58,9 +58,9 @@ def main(tier, seed):
     cases = corpus + [F.gen_scenario(ctx.rng, big=(tier != "quick")) for _ in range(n)]
     for i, c in enumerate(cases):
         c["id"] = i
-        # the second in-process run lets real time pass before every step ("perturbed twin"):
+        # the second in-process run lets real time run ahead of virtual time ("perturbed twin"):
         # nothing observable may depend on the wall clock
-        c.setdefault("wall_sleep_us", 1200 if i % 3 == 0 else 0)
+        c.setdefault("wall_sleep_us", 1)
     ctx.note("run %d scenarios x (2 in-process) x (2 OS processes)" % len(cases))
     ra, ea = harness_run("det", cases, shards=16)
     rb, eb = harness_run("det", list(reversed(cases)), shards=11)
